@@ -274,7 +274,7 @@ def make_externals():
     # ---- HDF5 ---------------------------------------------------------------
     H5_STATUS = ["H5Dclose", "H5Sclose", "H5Fclose", "H5Pclose", "H5Aclose", "H5Tclose", "H5Awrite", "H5Aread", "H5Dwrite",
                  "H5Dset_extent", "H5Sselect_hyperslab", "H5Pset_chunk", "H5Pset_deflate", "H5Pset_filter",
-                 "H5Pset_fill_value", "H5Tinsert", "H5Tset_size", "H5check_version", "H5open"]
+                 "H5Pset_fill_value", "H5Pset_fill_time", "H5Pset_alloc_time", "H5Tinsert", "H5Tset_size", "H5check_version", "H5open"]
     H5_ID = ["H5Fcreate", "H5Fopen", "H5Dcreate2", "H5Acreate2", "H5Aopen", "H5Screate", "H5Screate_simple",
              "H5Dget_space", "H5Pcreate", "H5Tcopy", "H5Tcreate"]
     H5_QUERY = ["H5Tget_class", "H5Tget_size", "H5Tget_order", "H5Tget_precision", "H5Tget_offset", "H5Tget_sign"]
